@@ -287,7 +287,7 @@ def make_case(rng, family=None):
     return {"kind": "sim", "family": family, "spec": spec, "steady": steady, "meta": meta, "source": rr["source"], "context": rr["context"],
             "T": T, "unant": unant, "ant": ant, "msh": msh, "init": init, "nvar": nvar,
             "warmup": int(rng.integers(1, 3)) if rng.random() < 0.5 else 0,
-            "deviation_modes": [bool(rng.random() < 0.5)] if rng.random() < 0.6 else [False, True],
+            "deviation_modes": [bool(rng.random() < 0.5)] if rng.random() < 0.6 else ([False, True] if rng.random() < 0.5 else [True, False]),
             "freq": str(rng.choice(["qq", "mm", "yy", "ii"]))}
 
 
